@@ -173,6 +173,7 @@ def run(tier):
                 return
             errors = list(jsonschema.Draft202012Validator(ent["doc"]).iter_errors(j))
             R.count("validated" if not errors else "invalid")
+            oracle_valid = not errors          # jsonschema's own verdict, whatever is attributed to a recorded finding below
             if errors and all(e.validator == "uniqueItems" for e in errors) and member_collision(c.value) \
                     and R.known_match("set-members-equal-json"):
                 errors = []
@@ -191,8 +192,8 @@ def run(tier):
                     R.count("value_outside_fragment")
             if ent["coq"] and json_in_domain(j):
                 try:
-                    vcases.append(f"(S{ent['idx']}, D{ent['idx']}, {data_coq(j)}, {coq_bool(not errors)})")
-                    vmeta.append(dict(c.to_json(), output=j, schema=ent["doc"], oracle=not errors))
+                    vcases.append(f"(S{ent['idx']}, D{ent['idx']}, {data_coq(j)}, {coq_bool(oracle_valid)})")
+                    vmeta.append(dict(c.to_json(), output=j, schema=ent["doc"], oracle=oracle_valid))
                     if not has_obj(c.t):
                         tcases.append(f"(U{c.uidx}, {S.sopts_coq(c.opts)}, {ty_coq(c.t)}, {value_coq(c.value, U.mod, sort_sets=False)}, "
                                       f"S{ent['idx']}, D{ent['idx']}, {data_coq(j)})")
